@@ -86,6 +86,52 @@ def topLevelTemps (out : Node) : List ScopeIssue :=
 def scopeIssues (out : Node) : List ScopeIssue :=
   topLevelTemps out ++ ((Node.collect isBlock out).map blockIssues).flatten
 
+/-! ### not reassigned while live
+
+A temporary assigned by an element of an injected sequence `(t = e, …, use(t))` is live until the last
+later element that mentions it; no element in between may assign it again (in its own region — nested
+blocks have their own temporaries). -/
+
+/-- some node of the own region (nested blocks excluded: they declare their own temporaries) satisfies `p` -/
+def ownAny (p : Node → Bool) (n : Node) : Bool :=
+  if isBlock n then false
+  else p n || n.kids.attach.any fun x => ownAny p x.1
+termination_by sizeOf n
+decreasing_by exact Node.sizeOf_lt_of_mem_kids x.2
+
+def assignsTemp (t : Nat) (n : Node) : Bool :=
+  ownAny (fun k => match k with
+    | .assign _ (.ident (.temp m) _) _ _ => m == t
+    | _ => false) n
+
+def mentionsTemp (t : Nat) (n : Node) : Bool :=
+  ownAny (fun k => match k with
+    | .ident (.temp m) _ => m == t
+    | _ => false) n
+
+def assignedTemp? : Node → Option (Nat × Node)
+  | .assign "=" (.ident (.temp t) _) rhs _ => some (t, rhs)
+  | _ => none
+
+/-- temporaries that an element of the sequence assigns again before their last later mention -/
+def seqReassigned (elems : List Node) : List Nat :=
+  (elems.zipIdx.filterMap fun (e, i) =>
+    match assignedTemp? e with
+    | some (t, _) =>
+      let later := elems.drop (i + 1)
+      -- index (within `later`) of the last element mentioning `t`
+      let lastUse := (later.zipIdx.filter fun (x, _) => mentionsTemp t x).map (·.2) |>.getLast?
+      match lastUse with
+      | some j => if (later.take (j + 1)).any (assignsTemp t) then some t else none
+      | none => none
+    | none => none)
+
+def reassignedWhileLive (out : Node) : List ScopeIssue :=
+  ((Node.collect (fun k => match k with | .seq .. => true | _ => false) out).map fun sq =>
+    match sq with
+    | .seq elems sp => (seqReassigned elems).map fun t => ⟨"temp-reassigned-while-live", sp, t⟩
+    | _ => []).flatten
+
 /-- the input mentions the reserved prefix in an identifier -/
 def mentionsReserved (pfx : String) (inp : Node) : Bool :=
   !(Node.all (fun k => match k with
